@@ -25,9 +25,9 @@ NOT_DECIDED = ("that bytes actually arrive (pipe pumping loops, splice/sendfile,
 TRUSTED = ["clang 14 parser/CFG builder", "echse-facts extractor", "python rule engines in /verif/sa", "open(2)/pipe(2)/mkstemp(3) succeed in the walked configurations"]
 LEVEL_TEXT = ("Static verdict on narrow necessary clauses of C13: the complete 20-row descriptor plan of prep_task against the documented "
               "routing table, the privilege/set-up order before the single spawn, and journal lock pairing / clean-up. It does NOT decide that "
-              "the bytes arrive, nor exit-status recording at run time.")
+              "the bytes arrive, nor exit-status recording at run time. Also: the journal position is moved to the end under the lock; with a tee set the mail descriptor is opened readable.")
 LEVEL_NOTE = "Trusted: clang 14 front end/CFG, extractor, rule engines; descriptor sources are assumed to succeed (failure fallbacks to /dev/null are outside the table)."
-TECHNIQUE = "static analysis: configuration-path enumeration (path-sensitive constant propagation over 20 assignments) against the routing table; dominance/order and pairing rules"
+TECHNIQUE = "static analysis: configuration-path enumeration (path-sensitive constant propagation over 20 assignments) against the routing table; dominance/order and pairing rules; open-flag constants on tee paths"
 
 OUT, ERR = 5001, 5002
 NUL, TMP = 7000, 7001
